@@ -85,6 +85,38 @@ def unit_compute(model, sizes):
     return recs
 
 
+def unit_compute_anysize(model, n):
+    """tie-swap on the real _compute for teams of every size (PL and the two full-pairing models): two
+    adjacent teams of equal rank listed in the other order get each other's results, everybody else the same"""
+    from .computil import GenericRun
+    from ..symrt import UncutLoop
+    recs = []
+    fn = f"{model}._compute"
+    for blocks in compositions(n):
+        ranks = ranks_of(blocks)
+        ties = [k for k in range(n - 1) if ranks[k] == ranks[k + 1]]
+        if not ties:
+            continue
+        shape = f"n={n},ties={blocks},any-team-size"
+        try:
+            base = GenericRun(model, n, ranks)
+            P = None
+            for k in ties:
+                order = list(range(n))
+                order[k], order[k + 1] = order[k + 1], order[k]
+                run = GenericRun(model, n, ranks, order=order)
+                W = CodeWorld(model, (1,) * n)
+                W.runs = [base, run]
+                P = W.prover()
+                t0 = time.time()
+                ok, note = _compare(P, base, run, (1,) * n)
+                recs.append(field_rec(f"C04/{model}/_compute/any-team-size/tie-swap[{k},{k + 1}]@{shape}", ok, "field", note, time.time() - t0, fn, shape,
+                                      _rp(model, (6, 5, 7, 2, 2, 2, 2, 2)[:n], ranks)))
+        except UncutLoop as e:
+            recs.append(driver.rec(f"C04/{model}/_compute/any-team-size/unbounded-proof@{shape}", "note", "explorer", 0, kind="note", fn=fn, shape=shape, note=f"not attempted: {e}"))
+    return recs
+
+
 def unit_rate(model, sizes, perm, player_order=None, limit=False, generic=False):
     """perm: presentation order of the teams; player_order: {team: order of its players} in presentation B;
     generic: sizes = (1,)*n, every team has a symbolic number of members (pyvc/teams.py) and the listed
@@ -210,7 +242,10 @@ def units(tier):
             for perm in perms:
                 us.append(("unit_rate", (m, (1,) * n, perm, None, False, True)))
         us.append(("unit_rate", (m, (1, 1), (1, 0), None, True, True)))
-    us.sort(key=lambda u: -(sum(u[1][1]) * 2 ** len(u[1][1]) * (10 if u[0] == "unit_rate" else 1)))
+        if m in FULL:
+            for n in ((2, 3, 4) if tier == "quick" else (2, 3, 4, 5, 6)):
+                us.append(("unit_compute_anysize", (m, n)))
+    us.sort(key=lambda u: -(sum(u[1][1]) * 2 ** len(u[1][1]) * (10 if u[0] == "unit_rate" else 1)) if u[0] != "unit_compute_anysize" else -(2 ** u[1][1]))
     if tier == "quick":
         us += [("unit_compute", (m, (1,) * 6)) for m in extract.MODELS if m in FULL]
     return us
